@@ -30,7 +30,37 @@ ANCHORED = [
 EXCLUDED_FUNCS = {
     'UTF8StreamEncoder.next': 'Python 2 alias',
     'UTF8StreamEncoder.__getattr__': 'attribute proxy',
+    'decompress': 'not on the response path (helper for clients / tests)',
 }
+# why a line that never ran cannot be reached by the lattice (substring of the source line -> reason); reported next
+# to the line in ctx.extra['anchored_lines_not_executed']
+WHY = [
+    ('except ValueError:', 'defensive: HTTPError.__init__ already validated the status'),
+    ("raise cherrypy.HTTPError(500, _exc_info()[1].args[0])", 'defensive: HTTPError.__init__ already validated the status'),
+    ("kwargs['message'] = message", 'defensive: set_response always passes a message'),
+    ("kwargs[k] = ''", 'defensive: every None was replaced just above'),
+    ('return False', 'encode_stream is never asked twice for one charset: its first call succeeds'),
+    ('yield tail', 'stateful codecs (utf-16/32, utf-8-sig) are outside the modelled charsets (C17)'),
+    ('body.append(tail)', 'stateful codecs (utf-16/32, utf-8-sig) are outside the modelled charsets (C17)'),
+    ('raise cherrypy.HTTPError(500, self.failmsg %', 'UTF-8 cannot fail on the generated texts (no lone surrogates)'),
+    ('self.default_encoding)', 'UTF-8 cannot fail on the generated texts (no lone surrogates)'),
+    ("msg = 'Your client did not send an Accept-Charset header.'", 'needs a forced charset that cannot encode the text'),
+    ('do_find = True', 'tools.encode.text_only=False is not in the lattice'),
+    ('found = True', 'tools.gzip.mime_types keeps its default (no wildcard entries)'),
+    ('break', 'tools.gzip.mime_types keeps its default (no wildcard entries)'),
+    ("ct_left, ct_right = ct_sub_type.split('+')", 'tools.gzip.mime_types keeps its default (no wildcard entries)'),
+    ("left, right = sub_type.split('+')", 'tools.gzip.mime_types keeps its default (no wildcard entries)'),
+    ("if left == '*' and ct_right == right:", 'tools.gzip.mime_types keeps its default (no wildcard entries)'),
+    ('return', 'tools.json_out runs at priority 30, before any tool that could have produced the body'),
+    ('stop = content_length', 'get_ranges already clamps stop to the entity length'),
+]
+
+
+def why(text):
+    for sub, reason in WHY:
+        if text.strip() == sub or (len(sub) > 12 and sub in text):
+            return reason
+    return None
 _DEBUG_LINES = {}
 
 
@@ -177,7 +207,8 @@ class Coverage(object):
         for f, l, q in missed:
             src = linecache.getline(f, l).strip()
             rel = f.split(os.sep + 'cherrypy' + os.sep, 1)[-1]
-            lines.append('%s:%d %s: %s' % (rel, l, q, src[:100]))
+            w = why(src)
+            lines.append('%s:%d %s: %s%s' % (rel, l, q, src[:100], '   [%s]' % w if w else ''))
         ctx.extra['anchored_lines_executable'] = len(ex)
         ctx.extra['anchored_lines_executed'] = len(ex) - len(missed)
         ctx.extra['anchored_lines_not_executed'] = lines
